@@ -191,16 +191,16 @@ Proof. intros c. change 255 with (2 ^ 8 - 1). apply ones_bits. Qed.
 
 (* the pattern of surprising values of a row at window offset [o]:
    early zone (c < o) inverted, window (o <= c < o+8) cleared, late zone kept *)
-Lemma mw_pattern_bits : forall o p c, o <= 56 ->
-  N.testbit (mw_pattern o p) c =
+Lemma fm_pattern_bits : forall o p c, o <= 56 ->
+  N.testbit (fm_pattern 255 o p) c =
     if c <? o then negb (N.testbit p c)
     else if c <? o + 8 then false
     else if c <? 64 then N.testbit p c else false.
 Proof.
-  intros o p c Ho. unfold mw_pattern. rewrite MW_FF_eq.
-  rewrite N.lxor_spec, N.land_spec, N.lxor_spec, shiftl_bits, ff_bits, mask64_bits, ones_bits.
+  intros o p c Ho. unfold fm_pattern.
+  rewrite N.lxor_spec, N.land_spec, N.lxor_spec, N.land_spec, shiftl_bits, ff_bits, mask64_bits, ones_bits.
   destruct (c <? o) eqn:E1.
-  - assert (c <? 64 = true) as -> by lia. cbn [xorb]. rewrite andb_true_r. apply xorb_true_r.
+  - assert (c <? 64 = true) as -> by lia. cbn [xorb andb]. rewrite andb_true_r. apply xorb_true_r.
   - destruct (c <? o + 8) eqn:E2.
     + assert (c - o <? 8 = true) as -> by lia. assert (c <? 64 = true) as -> by lia.
       cbn [xorb]. rewrite andb_false_r. reflexivity.
@@ -208,9 +208,9 @@ Proof.
       destruct (c <? 64); cbn [xorb]; rewrite ?andb_true_r, ?andb_false_r, xorb_false_r; reflexivity.
 Qed.
 
-Lemma mw_pattern_word64 : forall o p, o <= 56 -> word64 (mw_pattern o p).
+Lemma fm_pattern_word64 : forall o p, o <= 56 -> word64 (fm_pattern 255 o p).
 Proof.
-  intros o p Ho c Hc. rewrite mw_pattern_bits by exact Ho.
+  intros o p Ho c Hc. rewrite fm_pattern_bits by exact Ho.
   assert (c <? o = false) as -> by lia. assert (c <? o + 8 = false) as -> by lia.
   assert (c <? 64 = false) as -> by lia. reflexivity.
 Qed.
@@ -326,4 +326,104 @@ Proof.
     + destruct (r =? x / 64) eqn:E1; [|reflexivity].
       rewrite N.lxor_spec, N.pow2_bits_eqb. assert (x mod 64 =? c = false) as -> by lia.
       apply xorb_false_r.
+Qed.
+
+(* ---------- OR of a list of words ---------- *)
+Lemma fold_lor_bits : forall l a c,
+  N.testbit (fold_left N.lor l a) c = N.testbit a c || existsb (fun p => N.testbit p c) l.
+Proof.
+  induction l as [|p l IH]; intros a c; cbn [fold_left existsb].
+  - rewrite orb_false_r. reflexivity.
+  - rewrite IH, N.lor_spec, orb_assoc. reflexivity.
+Qed.
+
+(* ---------- lists of words are determined by their bits ---------- *)
+Lemma list_eq_nth : forall (l l' : list N), length l = length l' ->
+  (forall i, (i < length l)%nat -> nth i l 0 = nth i l' 0) -> l = l'.
+Proof.
+  induction l as [|x l IH]; intros [|y l'] HL H; cbn [length] in *; try lia; [reflexivity|].
+  f_equal.
+  - apply (H 0%nat). lia.
+  - apply IH; [lia|]. intros i Hi. apply (H (S i)). lia.
+Qed.
+
+Lemma list_eq_bits : forall (l l' : list N), length l = length l' ->
+  (forall r c, r < N.of_nat (length l) -> N.testbit (nthN l r 0) c = N.testbit (nthN l' r 0) c) -> l = l'.
+Proof.
+  intros l l' HL H. apply list_eq_nth; [exact HL|]. intros i Hi.
+  apply N.bits_inj. intros c. specialize (H (N.of_nat i) c ltac:(lia)).
+  unfold nthN in H. rewrite Nat2N.id in H. exact H.
+Qed.
+
+(* ---------- the pairs listed by the from_matrix loop ---------- *)
+Lemma fm_pairs_In : forall pats i x, Forall word64 pats ->
+  (In x (fm_pairs i pats) <->
+   i <= x / 64 /\ x / 64 < i + N.of_nat (length pats) /\ N.testbit (nthN pats (x / 64 - i) 0) (x mod 64) = true).
+Proof.
+  induction pats as [|p pats IH]; intros i x HF; cbn [fm_pairs].
+  - cbn [In length]. split; [tauto|]. intros [H1 [H2 _]]. lia.
+  - inversion HF as [|? ? Hp HF']; subst. rewrite in_app_iff, in_map_iff, (IH (i + 1) x HF').
+    cbn [length]. split.
+    + intros [[c [E Hc]]|[H1 [H2 H3]]].
+      * apply bits_of_spec in Hc.
+        assert (c < 64). { destruct (N.lt_ge_cases c 64) as [L|L]; [exact L|]. rewrite (Hp c L) in Hc. discriminate. }
+        subst x. rewrite rc_div, rc_mod by assumption. split; [lia|]. split; [lia|].
+        rewrite N.sub_diag. exact Hc.
+      * split; [lia|]. split; [lia|].
+        unfold nthN in *. replace (N.to_nat (x / 64 - i)) with (S (N.to_nat (x / 64 - (i + 1)))) by lia.
+        exact H3.
+    + intros [H1 [H2 H3]]. destruct (N.eq_dec (x / 64) i) as [E|E].
+      * left. exists (x mod 64). split; [rewrite <- E; symmetry; apply rc_eq|].
+        apply bits_of_spec. rewrite E, N.sub_diag in H3. exact H3.
+      * right. split; [lia|]. split; [lia|].
+        unfold nthN in *. replace (N.to_nat (x / 64 - i)) with (S (N.to_nat (x / 64 - (i + 1)))) in H3 by lia.
+        exact H3.
+Qed.
+
+Lemma fm_pairs_NoDup : forall pats i, Forall word64 pats -> NoDup (fm_pairs i pats).
+Proof.
+  induction pats as [|p pats IH]; intros i HF; cbn [fm_pairs]; [constructor|].
+  inversion HF as [|? ? Hp HF']; subst.
+  assert (Hlt : forall c, In c (bits_of p) -> c < 64).
+  { intros c Hc. apply bits_of_spec in Hc. destruct (N.lt_ge_cases c 64) as [L|L]; [exact L|].
+    rewrite (Hp c L) in Hc. discriminate. }
+  assert (ND1 : NoDup (map (fun c => i * 64 + c) (bits_of p))).
+  { pose proof (bits_of_NoDup p) as ND. revert Hlt ND. generalize (bits_of p). clear.
+    induction l as [|a l IH]; intros Hlt ND; cbn [map]; [constructor|].
+    inversion ND as [|? ? Ha ND']; subst. constructor.
+    - rewrite in_map_iff. intros [c [E Hc]]. assert (c = a) by lia. subst. contradiction.
+    - apply IH; [intros c Hc; apply Hlt; right; exact Hc|exact ND']. }
+  revert ND1. generalize (IH (i + 1) HF').
+  intros ND2 ND1.
+  assert (Hdisj : forall x, In x (map (fun c => i * 64 + c) (bits_of p)) -> ~ In x (fm_pairs (i + 1) pats)).
+  { intros x Hx Hx2. apply in_map_iff in Hx. destruct Hx as [c [E Hc]]. apply Hlt in Hc.
+    apply (fm_pairs_In pats (i + 1) x HF') in Hx2. subst x. rewrite rc_div in Hx2 by exact Hc. lia. }
+  revert ND1 Hdisj. generalize (map (fun c => i * 64 + c) (bits_of p)).
+  induction l as [|a l IHl]; intros ND1 Hdisj; cbn [app]; [exact ND2|].
+  inversion ND1 as [|? ? Ha ND1']; subst. constructor.
+  - rewrite in_app_iff. intros [H|H]; [contradiction|]. apply (Hdisj a); [left; reflexivity|exact H].
+  - apply IHl; [exact ND1'|]. intros x Hx. apply Hdisj. right. exact Hx.
+Qed.
+
+(* ---------- small facts about bytes and single bits ---------- *)
+Lemma lt_pow2_bits : forall w n, (forall c, n <= c -> N.testbit w c = false) -> w < 2 ^ n.
+Proof.
+  intros w n H. destruct (N.eq_dec w 0) as [->|Hn]; [apply N.neq_0_lt_0, N.pow_nonzero; discriminate|].
+  apply N.log2_lt_pow2; [lia|].
+  destruct (N.lt_ge_cases (N.log2 w) n) as [L|L]; [exact L|].
+  specialize (H (N.log2 w) L). rewrite (N.bit_log2 w Hn) in H. discriminate.
+Qed.
+
+Lemma lor_bit_byte : forall b j, b < 256 -> j < 8 -> N.lor b (2 ^ j) < 256.
+Proof.
+  intros b j Hb Hj. change 256 with (2 ^ 8). apply lt_pow2_bits. intros c Hc.
+  rewrite N.lor_spec, N.pow2_bits_eqb, byte_bits_high by (try exact Hb; lia).
+  assert (j =? c = false) as -> by lia. reflexivity.
+Qed.
+
+Lemma lor_bit_same : forall w j, (w =? N.lor w (2 ^ j)) = N.testbit w j.
+Proof.
+  intros w j. destruct (N.testbit w j) eqn:E.
+  - rewrite lor_bit_already by exact E. apply N.eqb_refl.
+  - apply N.eqb_neq. intros H. rewrite H, N.lor_spec, N.pow2_bits_eqb, N.eqb_refl, orb_true_r in E. discriminate.
 Qed.
